@@ -463,6 +463,28 @@ def rule_t2(ctx):
         raise Unrecognised("C16.T2", c, "decoder loop not found")
     lp = loops[0]
     appends = [x for x in ast.walk(lp) if isinstance(x, ast.Call) and isinstance(x.func, ast.Attribute) and x.func.attr == "append" and src(x.func.value) == "path"]
+    # the encoder repeats the continuation character (`chr(29) * (i // 27)`): the decoder's transfer function on chr(29) must therefore ACCUMULATE
+    # (state' = state + 27); an idempotent update (a flag or constant assignment) makes k >= 2 continuation characters decode like one
+    enc = ctx.repo.func(TRIE_, "path_to_trie_key", "C16.T2")
+    repeated = [x for x in ast.walk(enc) if isinstance(x, ast.BinOp) and isinstance(x.op, ast.Mult) and "chr(29)" in (src(x.left), src(x.right)) and "// 27" in src(x)]
+    if not repeated:
+        raise Unrecognised("C16.T2", f"{TRIE_}:path_to_trie_key", "repeated continuation character `chr(29) * (i // 27)` not found in the encoder")
+    esc_branches = [x for x in ast.walk(lp) if isinstance(x, ast.If) and any(isinstance(k, ast.Constant) and k.value == 29 for k in ast.walk(x.test))]
+    if len(esc_branches) != 1:
+        raise Unrecognised("C16.T2", c, "branch for the continuation character (29) not found")
+    esc_updates = [x for st in esc_branches[0].body for x in ast.walk(st) if isinstance(x, (ast.Assign, ast.AugAssign))]
+    accumulates = any(isinstance(x, ast.AugAssign) and isinstance(x.op, ast.Add) and src(x.value) == "27" for x in esc_updates) or any(
+        isinstance(x, ast.Assign) and isinstance(x.value, ast.BinOp) and isinstance(x.value.op, ast.Add) and src(x.targets[0]) in (src(x.value.left), src(x.value.right)) and "27" in (src(x.value.left), src(x.value.right))
+        for x in esc_updates)
+    idempotent = [x for x in esc_updates if isinstance(x, ast.Assign) and isinstance(x.value, ast.Constant)]
+    if not accumulates and not idempotent:
+        raise Unrecognised("C16.T2", c, "state update of the continuation branch not understood")
+    ctx.check(accumulates, "T2-decoder-continuation-accumulates", c, "each chr(29) adds 27 to the pending offset", site(esc_branches[0]),
+              f"the decoder's update on the continuation character is idempotent (`{src(idempotent[0]) if idempotent else ''}`) while the encoder emits one chr(29) per 27 (`{src(repeated[0])}`): "
+              "two or more continuation characters decode like one, so child indices >= 54 come back as index - 27*(k-1) and trie keys()/items() disagree with paths() for nodes with 55 or more children",
+              "offset += 27 per continuation character")
+    if not accumulates:
+        return
     if len(appends) != 1 or "offset" not in src(appends[0]):
         raise Unrecognised("C16.T2", c, "emission `path.append(offset + ...)` not found")
     ap_stmt = appends[0]
